@@ -197,6 +197,24 @@ func c01op(op string, f, g QFrame) []QFrame {
 	case "filter_and_all": // And whose first member keeps every row (a2 shares a's storage) and whose second drops some
 		return []QFrame{f.Filter(And(Filter{Column: "a", Comparator: "=", Arg: types.ColumnName("a2")}, Filter{Column: "a", Comparator: ">", Arg: c})),
 			f.Filter(And(Filter{Column: "a2", Comparator: "<=", Arg: types.ColumnName("a")}, Filter{Column: "s", Comparator: "isnotnull"}, Filter{Column: "a", Comparator: "<", Arg: c}))}
+	case "aggregate_mutating": // a user aggregation may reorder the slice it is given (e.g. a sorting median)
+		mut := func(xs []int) int {
+			if len(xs) > 1 {
+				xs[0], xs[len(xs)-1] = xs[len(xs)-1], xs[0]
+			}
+			return xs[0]
+		}
+		mutf := func(xs []float64) float64 {
+			if len(xs) > 1 {
+				xs[0], xs[1] = xs[1], xs[0]
+			}
+			return xs[0]
+		}
+		h := f.Slice(1, f.Len()) // rows that are adjacent in the column storage (index 0,1,..)
+		return []QFrame{f.GroupBy().Aggregate(Aggregation{Fn: mut, Column: "a"}), h.GroupBy().Aggregate(Aggregation{Fn: mut, Column: "a"}, Aggregation{Fn: mutf, Column: "f"}),
+			f.Sort(Order{Column: "a"}).GroupBy(groupby.Columns("c")).Aggregate(Aggregation{Fn: mut, Column: "a2"})}
+	case "apply_selfcopy_then": // a first instruction that is a no-op must not make the later ones work in place
+		return []QFrame{f.Apply(Instruction{Fn: types.ColumnName("a"), DstCol: "a"}, Instruction{Fn: c, DstCol: "a"}, Instruction{Fn: func(x int) int { return vx.UFInt("g", x) }, DstCol: "nw", SrcCol1: "a2"})}
 	case "filter_ilike":
 		return []QFrame{f.Filter(Filter{Column: "s", Comparator: "ilike", Arg: "y%"}), f.Filter(Filter{Column: "e", Comparator: "ilike", Arg: "%B"})}
 	case "filter_like_regex":
